@@ -49,6 +49,18 @@ func (s *storeRun) call(op string, h uint64, v, k, val string, fuse int) {
 	if fuse >= 0 && s.kv != nil {
 		s.kv.Arm(fuse)
 	}
+	// fuse -2: the datastore refuses the call's next write with an error; fuse -10-k: the k-th operation queued on a
+	// write batch fails (the batch stays usable). The process lives on; the call must fail and leave nothing behind.
+	if s.kv != nil && fuse == -2 {
+		s.kv.FailWrite(1)
+		rec["wf"] = true
+		defer s.kv.FailWrite(0)
+	}
+	if s.kv != nil && fuse <= -11 {
+		s.kv.FailBatchOp(-10 - fuse)
+		rec["wf"] = true
+		defer s.kv.FailBatchOp(0)
+	}
 	func() {
 		defer func() {
 			if r := recover(); r != nil {
@@ -179,6 +191,8 @@ func (s *storeRun) randomOp(rng *mrand.Rand, fuseOK bool) {
 	fuse := -1
 	if fuseOK && rng.Intn(6) == 0 {
 		fuse = rng.Intn(3) // the k-th durable write of the call does not happen: all-or-nothing must hold at every one
+	} else if fuseOK && rng.Intn(6) == 0 {
+		fuse = []int{-2, -11, -12, -13, -14, -15}[rng.Intn(6)] // a refused write / a refused batch operation
 	}
 	switch rng.Intn(16) {
 	case 0, 1, 2, 3:
@@ -242,6 +256,40 @@ func RunStore(c *Ctx) {
 		s.readAll()
 		w.Close()
 		c.Count("storeruns", 1)
+	}
+	// a write that is refused with an error (by the datastore, or one operation of its batch) and then simply tried
+	// again, for every kind of write: what was acknowledged is what is read, also after reopening
+	for _, fault := range []int{-2, -11, -12, -13, -14} {
+		for _, reopenAfter := range []bool{false, true} {
+			c.Tr.Reset(fmt.Sprintf("retry/f%d/%v", -fault, reopenAfter), world.F{"driver": "store", "ih": 1})
+			w := world.NewWorld(c.Tr, 1, world.T0)
+			s := &storeRun{c: c, w: w, blocks: map[string]*types.SignedHeader{}, datas: map[string]*types.Data{}, byHash: map[string]string{}}
+			s.kv = world.NewCrashKV(c.Tr, "store")
+			s.st = store.New(s.kv)
+			s.call("save", 1, "A", "", "", -1)
+			s.call("setheight", 1, "", "", "", -1)
+			s.call("setstate", 1, "", "", "root0", -1)
+			s.call("setmeta", 0, "", storeMetaKeys[0], "val0", -1)
+			s.readAll()
+			f1 := fault
+			if fault <= -11 {
+				f1 = -2 // single writes have no batch
+			}
+			s.call("save", 1, "B", "", "", fault)
+			s.call("save", 1, "B", "", "", -1)
+			s.call("setheight", 2, "", "", "", f1)
+			s.call("setheight", 2, "", "", "", -1)
+			s.call("setstate", 2, "", "", "root1", f1)
+			s.call("setstate", 2, "", "", "root1", -1)
+			s.call("setmeta", 0, "", storeMetaKeys[0], "val1", f1)
+			s.call("setmeta", 0, "", storeMetaKeys[0], "val1", -1)
+			if reopenAfter {
+				s.reopen()
+			}
+			s.readAll()
+			w.Close()
+			c.Count("storeruns", 1)
+		}
 	}
 	// every write boundary of a block save that replaces another block (and of one that repeats it)
 	for _, second := range []string{"B", "A"} {
